@@ -122,16 +122,18 @@ impl Masker for TreeSitterMasker {
 fn byte_spans_to_char_spans(byte_spans: &mut Vec<Span>, source: &str) {
     byte_spans.sort_by_key(|s| s.start);
 
-    let cloned = byte_spans.clone();
-
-    let mut i: usize = 0;
+    // Compare against the last span that was *kept*: a span nested inside an earlier,
+    // longer one may not overlap its immediate (already removed) predecessor.
+    let mut last_kept: Option<Span> = None;
     byte_spans.retain(|cur| {
-        i += 1;
-        if let Some(prev) = cloned.get(i.wrapping_sub(2)) {
-            !cur.overlaps_with(*prev)
-        } else {
-            true
+        if let Some(prev) = last_kept {
+            if cur.start < prev.end {
+                return false;
+            }
         }
+
+        last_kept = Some(*cur);
+        true
     });
 
     let mut last_byte_pos = 0;
